@@ -717,11 +717,17 @@ func (c *Ctx) cacheFill(rule string) {
 		r.Floor(rule, "state-cache fill callbacks", n, 1)
 	}
 	if rv := c.fn(rule, "internal/ledger.(createObjectChange).revert"); rv != nil {
-		ok := len(sites(rv, func(in ssa.Instruction) bool {
+		// the removal itself: lru Remove on the account-record cache, directly or through a helper (rmAccount)
+		isRemove := c.throughHelpers(func(in ssa.Instruction) bool {
 			call, ok := in.(ssa.CallInstruction)
-			return ok && strings.HasSuffix(core.CalleeName(call), "AccountCache).rmAccount")
-		})) > 0
-		r.Check(ok, rule, "createObjectChange.revert removes the cached account", c.P.Pos(rv.Pos()), "rmAccount called", "reverting an account creation leaves its record in the account cache")
+			if !ok || core.CalleeName(call) != "(*github.com/hashicorp/golang-lru.Cache).Remove" {
+				return false
+			}
+			_, f, _, okf := core.FieldOf(core.Receiver(call))
+			return okf && f == "innerAccountCache"
+		})
+		ok := len(sites(rv, isRemove)) > 0
+		r.Check(ok, rule, "createObjectChange.revert removes the cached account", c.P.Pos(rv.Pos()), "innerAccountCache.Remove reached", "reverting an account creation leaves its record in the account cache")
 	}
 
 }
